@@ -25,7 +25,7 @@ structure RInv (cfg : Cfg) (ws : WLog) (x : Reader) : Prop where
   acc_log    : ∀ d ∈ x.acc, IsWrite cfg ws d
   acc_sorted : x.acc.Pairwise (fun a b => a.wid < b.wid)
   disc_sub   : ∀ d ∈ x.disc, d ∈ x.acc
-  meds_nodup : x.meds.Nodup
+  chan_ok    : ChanOK x
   frames_ok  : ∀ f ∈ x.wire ++ x.queue, FrameOK cfg x f
   frames_acc : ∀ f ∈ x.wire ++ x.queue, f.deliv ∈ x.acc
   cap        : x.queue.length ≤ cfg.cap
@@ -51,7 +51,7 @@ theorem RInv.wid_lt {cfg : Cfg} {ws : WLog} {x : Reader} (h : RInv cfg ws x) {d 
   · rw [List.getElem?_eq_none h] at h1; cases h1
 
 theorem rinv_init (cfg : Cfg) (u : Bool) : RInv cfg [] { udp := u } := by
-  constructor <;> simp [live, flight]
+  constructor <;> simp [live, flight, ChanOK]
 
 /-! ## writes -/
 
@@ -68,7 +68,7 @@ theorem rinv_bump {cfg : Cfg} {ws : WLog} {x : Reader} (h : RInv cfg ws x) (w : 
   · intro d hd; exact (h.acc_log d hd).mono _
   · exact h.acc_sorted
   · exact h.disc_sub
-  · exact h.meds_nodup
+  · exact h.chan_ok
   · exact h.frames_ok
   · exact h.frames_acc
   · exact h.cap
@@ -109,7 +109,7 @@ theorem rinv_write {cfg : Cfg} {ws : WLog} {x : Reader} (h : RInv cfg ws x) (m :
         subst hb
         exact hnew a ha
       · intro d hd; exact List.mem_append_left _ (h.disc_sub d hd)
-      · exact h.meds_nodup
+      · exact h.chan_ok
       · intro f hf
         simp only [← List.append_assoc, List.mem_append, List.mem_singleton] at hf
         rcases hf with hf | hf
@@ -140,26 +140,44 @@ theorem rinv_write {cfg : Cfg} {ws : WLog} {x : Reader} (h : RInv cfg ws x) (m :
 
 /-! ## control events -/
 
-theorem rinv_setup {cfg : Cfg} {ws : WLog} {x : Reader} (h : RInv cfg ws x) (m : Nat) :
-    RInv cfg ws (rctl cfg x (.setup m)) := by
+theorem rinv_setup {cfg : Cfg} {ws : WLog} {x : Reader} (h : RInv cfg ws x) (m : Nat) (req : Option Nat) :
+    RInv cfg ws (rctl cfg x (.setup m req)) := by
   simp only [rctl]
   split
   · rename_i hc
     simp only [Bool.and_eq_true, beq_iff_eq, decide_eq_true_eq, Bool.not_eq_true',
       List.contains_eq_mem, decide_eq_false_iff_not] at hc
-    obtain ⟨⟨_, _⟩, hnm⟩ := hc
-    refine { h with meds_nodup := ?_, frames_ok := ?_ }
-    · rw [List.nodup_append]
-      refine ⟨h.meds_nodup, by simp, ?_⟩
-      intro a ha b hb
-      simp only [List.mem_singleton] at hb
-      subst hb
-      intro hab; subst hab; exact hnm ha
+    obtain ⟨⟨⟨_, _⟩, hnm⟩, hfree⟩ := hc
+    obtain ⟨hlen, hcn, hmn⟩ := h.chan_ok
+    -- a free pair is in particular a channel not yet used
+    have hnew : req.getD (freePair x) ∉ x.chs := by
+      intro hin
+      have : pairInUse x (req.getD (freePair x)) = true := by
+        simp only [pairInUse, List.any_eq_true]
+        exact ⟨_, hin, by simp⟩
+      rw [this] at hfree; cases hfree
+    refine { h with chan_ok := ?_, frames_ok := ?_ }
+    · refine ⟨by simp [hlen], ?_, ?_⟩
+      · rw [List.nodup_append]
+        refine ⟨hcn, by simp, ?_⟩
+        intro a ha b hb
+        simp only [List.mem_singleton] at hb
+        subst hb
+        intro hab; subst hab; exact hnew ha
+      · rw [List.nodup_append]
+        refine ⟨hmn, by simp, ?_⟩
+        intro a ha b hb
+        simp only [List.mem_singleton] at hb
+        subst hb
+        intro hab; subst hab; exact hnm ha
     · intro f hf
       obtain ⟨h1, h2, h3⟩ := h.frames_ok f hf
       refine ⟨List.mem_append_left _ h1, ?_, h3⟩
-      show f.chan = 2 * (x.meds ++ [m]).idxOf f.media
-      rw [idxOf_append_mem m h1]; exact h2
+      have hi : x.meds.idxOf f.media < x.chs.length := by
+        rw [hlen]; exact List.idxOf_lt_length_of_mem h1
+      show f.chan = (x.chs ++ [req.getD (freePair x)]).getD ((x.meds ++ [m]).idxOf f.media) 0
+      rw [idxOf_append_mem m h1, List.getD_eq_getElem?_getD, List.getElem?_append_left hi, h2]
+      simp [chanOf, List.getD_eq_getElem?_getD]
   · exact h
 
 theorem rinv_play {cfg : Cfg} {ws : WLog} {x : Reader} (h : RInv cfg ws x) :
@@ -303,7 +321,7 @@ theorem rinv_carry {cfg : Cfg} {ws : WLog} {x : Reader} (h : RInv cfg ws x) :
     · exact h
     · rename_i f w hw
       have hok : FrameOK cfg x f := h.frames_ok f (by rw [hw]; simp)
-      simp only [demux_ok cfg x f hok]
+      simp only [demux_ok cfg x h.chan_ok f hok]
       have hsub : ∀ g, g ∈ w ++ x.queue → g ∈ x.wire ++ x.queue := by
         intro g hg
         rw [hw]
